@@ -519,6 +519,10 @@ func matchFilter(filter Filter, value interface{}) (bool, interface{}, error) {
 				return true, value, nil
 			}
 		}
+		// none of the elements matched: the array itself can only satisfy a filter that asks for an array
+		if filter.Type != "array" {
+			return false, nil, nil
+		}
 	default:
 		// object not supported for now
 		return false, nil, ErrUnsupportedFilter
